@@ -33,14 +33,22 @@ class En:
     def __repr__(self): return 'En<%s>(%s,%s)' % (self.ty, self.d, self.pay)
 
 class VecV:
-    __slots__ = ('len', 'cap', 'el')
-    def __init__(self, ln, cap, el): self.len = ln; self.cap = cap; self.el = tuple(el)
+    """pos: None, or the (symbolic, pairwise different) 0-based positions of the modelled elements inside a longer vector
+    whose other elements are not modelled (embedded mode: an access that can hit an unmodelled position is reported)"""
+    __slots__ = ('len', 'cap', 'el', 'pos')
+    def __init__(self, ln, cap, el, pos=None): self.len = ln; self.cap = cap; self.el = tuple(el); self.pos = pos
     def __repr__(self): return 'Vec(len=%s,%s)' % (self.len, list(self.el))
 
 class Ref:
     __slots__ = ('cell', 'path')
     def __init__(self, cell, path): self.cell = cell; self.path = tuple(path)
     def __repr__(self): return 'Ref(%s,%s)' % (self.cell, self.path)
+
+class SubRef(Ref):
+    """reference to the sub-slice [off, off+len) of the vector / slice at (cell, path)"""
+    __slots__ = ('off', 'len')
+    def __init__(self, cell, path, off, ln): Ref.__init__(self, cell, path); self.off = off; self.len = ln
+    def __repr__(self): return 'SubRef(%s,%s,%r,%r)' % (self.cell, self.path, self.off, self.len)
 
 class FnV:
     __slots__ = ('kind', 'name', 'env')
@@ -365,7 +373,8 @@ class Engine:
             elif p[0] == 'i':
                 assert isinstance(v, VecV), v
                 i = p[1]
-                if i.conc():
+                if v.pos is not None: self.tracked_access(v, i, st)
+                if i.conc() and v.pos is None:
                     v = v.el[i.v]
                 else:
                     rest = path[k+1:]
@@ -376,7 +385,7 @@ class Engine:
                             ej = self.get(v.el[j], rest, st)
                         except AbsentVariant:
                             continue
-                        acc = ej if acc is None else merge(i.v == j, ej, acc)
+                        acc = ej if acc is None else merge(bv(i.v, 'usize') == (j if v.pos is None else v.pos[j]), ej, acc)
                     if acc is None: raise AbsentVariant('all elements absent')
                     return acc
             else:
@@ -400,17 +409,29 @@ class Engine:
             assert isinstance(v, VecV)
             i = p[1]
             l = list(v.el)
-            if i.conc():
+            if v.pos is not None: self.tracked_access(v, i, st)
+            if i.conc() and v.pos is None:
                 l[i.v] = self.put(l[i.v], rest, new, st)
             else:
                 for j in range(len(l)):
                     if l[j] is UNINIT: continue
                     try:
-                        l[j] = merge(i.v == j, self.put(l[j], rest, new, st), l[j])
+                        l[j] = merge(bv(i.v, 'usize') == (j if v.pos is None else v.pos[j]), self.put(l[j], rest, new, st), l[j])
                     except AbsentVariant:
                         pass
-            return VecV(v.len, v.cap, l)
+            return VecV(v.len, v.cap, l, v.pos)
         raise Unsupported('put path %r' % (p,))
+
+    def tracked_access(self, v, i, st):
+        """embedded mode: the index must denote one of the modelled elements on the current path"""
+        pc = list(st.pc) if st is not None and hasattr(st, 'pc') else []
+        key = (i.v.get_id() if not i.conc() else ('c', i.v), hash(tuple(c.get_id() if hasattr(c, 'get_id') else c for c in pc)))
+        seen = self.__dict__.setdefault('_tracked_ok', set())
+        if key in seen: return
+        t = bv(i.v, 'usize')
+        if self.check(pc + [z3.And(*[t != p_ for p_ in v.pos])]) != z3.unsat:
+            raise Unsupported('embedded arena: access to a position outside the modelled component')
+        seen.add(key)
 
     def variant_index(self, ty, name):
         h = type_head(ty) if ty else None
@@ -421,17 +442,26 @@ class Engine:
 
     def resolve(self, st, fr, place):
         cell = fr.loc[place.local]; path = ()
+        off = None
         for p in place.proj:
             if p[0] == 'deref':
                 r = self.get(st.store[cell], path, st)
                 if not isinstance(r, Ref): raise Unsupported('deref of %r (%s)' % (r, place))
                 cell, path = r.cell, r.path
+                off = r if isinstance(r, SubRef) else None
+                continue
             elif p[0] == 'field': path = path + (('f', p[1]),)
             elif p[0] == 'downcast': path = path + (('v', p[1]),)
             elif p[0] == 'index':
                 iv = st.store[fr.loc[p[1]]]
+                if off is not None: iv = self.binop('Add', iv, off.off)
                 path = path + (('i', iv),)
-            elif p[0] == 'constindex': path = path + (('i', S(p[1], 'usize')),)
+            elif p[0] == 'constindex':
+                iv = S(p[1], 'usize')
+                if off is not None: iv = self.binop('Add', iv, off.off)
+                path = path + (('i', iv),)
+            off = None
+        self._sub = off          # the place denotes a sub-slice as a whole
         return cell, path
 
     def read_place(self, st, fr, place):
@@ -577,6 +607,7 @@ class Engine:
 
     def unop(self, op, a, st=None):
         if op == 'PtrMetadata':
+            if isinstance(a, SubRef): return a.len
             v = self.deref(st, a)
             return v.len
         if op == 'Not':
@@ -629,6 +660,7 @@ class Engine:
         if k == 'use': return self.operand(st, fr, rv.args[0])
         if k == 'ref':
             cell, path = self.resolve(st, fr, rv.args[0])
+            if self._sub is not None: return SubRef(cell, path, self._sub.off, self._sub.len)
             return Ref(cell, path)
         if k == 'binop':
             return self.binop(rv.extra, self.operand(st, fr, rv.args[0]), self.operand(st, fr, rv.args[1]))
@@ -997,6 +1029,15 @@ def bi_vec_index(eng, st, args, dest, ret_bb, callee=''):
     ok = in_bounds(i, v.len)
     return ('fork', [(ok, ('value', Ref(r.cell, r.path + (('i', i),)))), (neg(ok), ('panic', 'index out of bounds'))])
 
+def bi_split_at_mut(eng, st, args, dest, ret_bb, callee=''):
+    r, k = args
+    if isinstance(r, SubRef): base, ln = r.off, r.len
+    else: base, ln = S(0, 'usize'), vec_of(eng, st, r).len
+    ok = eng.binop('Le', k, ln)
+    okc = ok.v
+    a = SubRef(r.cell, r.path, base, k); b = SubRef(r.cell, r.path, eng.binop('Add', base, k), eng.binop('Sub', ln, k))
+    return ('fork', [(okc, ('value', Agg('tuple', [a, b]))), (neg(okc), ('panic', 'mid > len'))])
+
 def bi_vec_len(eng, st, args, dest, ret_bb, callee=''):
     return ('value', vec_of(eng, st, args[0]).len)
 
@@ -1330,7 +1371,7 @@ BUILTIN_METHODS = {
     ('[Node<T>]', 'as_ptr_range'): bi_as_ptr_range, ('Vec', 'as_ptr'): bi_as_ptr, ('Vec', 'as_mut_ptr'): bi_as_ptr, ('[Node<T>]', 'as_ptr'): bi_as_ptr,
     ('Vec', 'as_ptr_range'): bi_as_ptr_range, ('Range', 'contains'): bi_range_contains, ('mem', 'size_of'): bi_size_of,
     ('[Node<T>]', 'iter'): bi_slice_iter_any, ('[Node<T>]', 'iter_mut'): bi_slice_iter_any, ('[Node<T>]', 'len'): bi_vec_len,
-    ('Vec', 'as_mut_slice'): bi_identity, ('Vec', 'iter'): bi_slice_iter_any, ('Vec', 'iter_mut'): bi_slice_iter_any,
+    ('Vec', 'as_mut_slice'): bi_identity, ('[Node<T>]', 'split_at_mut'): bi_split_at_mut, ('[Node<T>]', 'split_at'): bi_split_at_mut, ('Vec', 'split_at_mut'): bi_split_at_mut, ('slice', 'split_at_mut'): bi_split_at_mut, ('Vec', 'iter'): bi_slice_iter_any, ('Vec', 'iter_mut'): bi_slice_iter_any,
     ('NonZero', 'new'): bi_nonzero_new, ('NonZero', 'get'): bi_nonzero_get, ('NonZero', 'eq'): bi_prim_eq,
     ('usize', 'eq'): bi_prim_eq, ('i16', 'eq'): bi_prim_eq, ('isize', 'eq'): bi_prim_eq, ('u8', 'eq'): bi_prim_eq, ('bool', 'eq'): bi_prim_eq,
     ('mem', 'replace'): bi_mem_replace,
